@@ -560,7 +560,8 @@ Dot11ManagementFrame::country_params::from_option(const option& opt) {
         output.number_channels.push_back(*(ptr++));
         output.max_transmit_power.push_back(*(ptr++));
     }
-    if (ptr != end) {
+    // One pad octet may follow the triplets to make the length even
+    if (ptr != end && end - ptr != 1) {
         throw malformed_option();
     }
     return output; 
